@@ -266,7 +266,54 @@ def r08_4(ctx: Ctx) -> None:
     ctx.check(ok, "R08.4", pa, pa.node, "append reuses the parsed header object", "_prepare_append replaces the parsed header (existing members would be dropped)", construct="append header reuse")
 
 
+def r08_8(ctx: Ctx) -> None:
+    """sibling constructors: a section object built WITHOUT parsing (classmethod `obj = cls(); obj.x = ...; return obj`, e.g.
+    SubstreamsInfo.from_folders for archives that carry no SubStreamsInfo) defines every field its parsing sibling `_read` defines.
+    The append path (Worker._after_write, flush_archive) continues those lists; a field left at None is restarted empty and the
+    sizes/digests of the existing members are dropped from the rewritten header."""
+    n_sib = 0
+    for cq, cls in sorted(ctx.prog.module("archiveinfo").classes.items()):
+        if cls.module != "archiveinfo" or "_read" not in cls.methods:
+            continue
+        rd = cls.methods["_read"]
+        rd_fields = set()
+        for n in walk(rd.node):
+            if isinstance(n, (ast.Assign, ast.AnnAssign)):
+                tg = n.targets if isinstance(n, ast.Assign) else [n.target]
+                for t in tg:
+                    if isinstance(t, ast.Attribute) and isinstance(t.value, ast.Name) and t.value.id == "self":
+                        rd_fields.add(t.attr)
+            if isinstance(n, ast.Call) and isinstance(n.func, ast.Attribute) and n.func.attr in ("append", "extend") and isinstance(n.func.value, ast.Attribute) \
+                    and isinstance(n.func.value.value, ast.Name) and n.func.value.value.id == "self":
+                rd_fields.add(n.func.value.attr)
+        for mname, m in sorted(cls.methods.items()):
+            if mname in ("retrieve", "_read") or not m.params or m.params[0] != "cls":
+                continue
+            objs = {t.id for n in walk(m.node) if isinstance(n, ast.Assign) and isinstance(n.value, ast.Call) and isinstance(n.value.func, ast.Name)
+                    and n.value.func.id == "cls" and not n.value.args for t in n.targets if isinstance(t, ast.Name)}
+            rets = [n for n in walk(m.node) if isinstance(n, ast.Return) and isinstance(n.value, ast.Name) and n.value.id in objs]
+            if not objs or not rets:
+                continue
+            # a constructor that delegates to _read is the parsing one
+            if any(attr_tail(c) == "_read" for c in q.calls(m)):
+                continue
+            n_sib += 1
+            own = {t.attr for n in walk(m.node) if isinstance(n, (ast.Assign, ast.AnnAssign)) for t in (n.targets if isinstance(n, ast.Assign) else [n.target])
+                   if isinstance(t, ast.Attribute) and isinstance(t.value, ast.Name) and t.value.id in objs}
+            own |= {c.func.value.attr for c in q.calls(m) if isinstance(c.func, ast.Attribute) and c.func.attr in ("append", "extend") and isinstance(c.func.value, ast.Attribute)
+                    and isinstance(c.func.value.value, ast.Name) and c.func.value.value.id in objs}
+            missing = sorted(rd_fields - own)
+            ctx.check(not missing, "R08.8", m, m.node, f"{m.qname} defines every field {cls.name}._read defines ({sorted(rd_fields)})",
+                      f"{m.qname} builds a {cls.name} without parsing but leaves {missing} undefined although {cls.name}._read defines them: the append path "
+                      "restarts such a list empty, so the entries of the existing members are missing from the rewritten header (appended members get each other's sizes)",
+                      construct=f"sibling constructor fields {missing}")
+    ctx.floor("R08.8", n_sib, 1, "non-parsing sibling constructors in archiveinfo")
+
+
 def run(ctx: Ctx) -> None:
+    from . import c06 as _c06
+    _c06.r06_12(ctx, rule="R08.9")  # py7zr's own append of only directories writes a zero-stream folder: the archive must stay readable/appendable
+    r08_8(ctx)
     r08_1(ctx)
     from . import c07, c06
     c07.r07_1(ctx, rule="R08.2")
